@@ -217,7 +217,9 @@ func TestVerifC15Manager(t *testing.T) {
 		}
 	}
 	nviol := map[string]int{}
+	defer vCaseDone()
 	for _, c := range cases {
+		vCaseStart(c)
 		violation := func(sig, detail string) {
 			nviol[sig]++
 			if nviol[sig] > 2 { // one line per violation is enough to fail the run; keep the report short
